@@ -155,7 +155,9 @@ def gen_case(rng):
 # a singleton whose constructor fails (it raises, or a required binding is missing): nothing is cached, and after
 # clear_config - or straight away - the same scope name is usable like in a fresh process; a finite table on the real code
 RETRY_CASES = [{'dom': 'gin', '_kind': 'singleton_retry', 'fail': fl, 'clear': cl, 'key': k, 'ops': []}
-               for fl in ('raises', 'missing_required', 'base_exception') for cl in (None, False, True) for k in ('db', 'a/db')]
+               for fl in ('raises', 'missing_required', 'base_exception') for cl in (None, False, True) for k in ('db', 'a/db')] + \
+    [{'dom': 'gin', '_kind': 'singleton_retry', 'fail': 'print_fails', 'clear': cl, 'key': w, 'ops': []}
+     for cl in (False, True) for w in ('operative', 'config', 'both')]
 
 
 def run_retry_case(case):
@@ -171,6 +173,27 @@ def run_retry_case(case):
 
   class Stop(BaseException):
     pass
+  if case['fail'] == 'print_fails':
+    # a value that cannot be printed sits in the configuration / the operative record; printing fails; clear_config
+    # (run aside with a time limit: a lock left behind must not be waited for for ever) still succeeds
+    import threading
+    from encode import BadRepr
+    gin.bind_parameter('rt.consumer.db', BadRepr.get(471))
+    consumer()
+    for name in {'operative': ['operative_config_str'], 'config': ['config_str'], 'both': ['config_str', 'operative_config_str']}[key]:
+      try:
+        getattr(gin, name)()
+        facts[name] = 'returned'
+      except RuntimeError:
+        facts[name] = 'failed'
+    done = []
+    t = threading.Thread(target=lambda: (gin.clear_config(clear_constants=case['clear']), done.append(True)), daemon=True)
+    t.start()
+    t.join(15)
+    facts['clear_finished'] = bool(done)
+    if done:
+      facts['pristine'] = gin.config_str() == '' and gin.operative_config_str() == '' and not gin.config.config_is_locked()
+    return {'out': [], 'facts': facts}
   try:
     if case['fail'] == 'missing_required':
       gin.parse_config(f'rt.consumer.db = @{key}/gin.singleton()\n{key}/gin.singleton.constructor = @rt.make_db\n')
@@ -239,6 +262,10 @@ def run_impl(case):
 def oracle(case, impl):
   if case.get('_kind') == 'singleton_retry':
     f = impl['facts']
+    if case['fail'] == 'print_fails':
+      if not f.get('clear_finished') or not f.get('pristine'):
+        return f'clear_config() after a failed attempt to print the configuration ({case["key"]}): {f}'
+      return None
     if 'error' in f or f.get('first') != 'failed' or f.get('second') != {'url': 'sqlite://', 'port': 1} or not f.get('same_object'):
       return (f'a singleton whose constructor failed ({case["fail"]}), then clear_config={case["clear"]}, then a working '
               f'configuration under the same scope name {case["key"]!r}: {f}')
